@@ -174,6 +174,27 @@ class Deque(list):
     """collections.deque as a list with the deque methods"""
 
 
+class SymDict(dict):
+    """an instance of a project class that derives from dict: a dictionary that also has the class' methods and own attributes"""
+
+    def __init__(self, cls):
+        super().__init__()
+        Sym._n += 1
+        self.uid = Sym._n
+        self.cls = cls
+        self.fields = {}
+        self.name = cls.name + "()"
+
+    def __repr__(self):
+        return f"<{self.name} {dict.__repr__(self)}>"
+
+    def __hash__(self):
+        return id(self)
+
+    def __eq__(self, other):
+        return self is other
+
+
 class EnumInt(int):
     """a member of an IntEnum / IntFlag of the project: an int (indexing, comparison, hashing as Python does) that also knows its
     class and name, so that properties and methods of the enum class can be called on it"""
@@ -228,9 +249,18 @@ class MiniInterp:
     def __init__(self, prj: Project, hook: Optional[Callable] = None, max_steps: int = 50000, max_depth: int = 12):
         self.prj, self.hook = prj, hook
         self.steps, self.max_steps, self.max_depth = 0, max_steps, max_depth
-        self.depth = 0
+        import threading
+        self._tl = threading.local()
         self.terms: dict = {}      # uninterpreted terms by name (linear forms refer to them by name)
         self.class_state: dict = {}    # (class qualname, attribute) -> value written through the class during evaluation
+
+    @property
+    def depth(self):
+        return getattr(self._tl, "depth", 0)
+
+    @depth.setter
+    def depth(self, v):
+        self._tl.depth = v
 
     # ------------------------------------------------------------------ entry
     def call(self, fi: FuncInfo, args: list, kwargs: dict | None = None, self_obj=None):
@@ -285,17 +315,23 @@ class MiniInterp:
                     if dk not in store:
                         store[dk] = self.ev(d, {}, fi)
                     env[p] = store[dk]
-            is_gen = any(isinstance(x, (ast.Yield, ast.YieldFrom)) for x in fi.walk())
-            if is_gen:
-                env["__yield__"] = []
+            is_gen = _is_generator(fi.node)
             result = None
-            try:
-                self.block(fi.node.body, env, fi)
-            except _Ret as r:
-                if not is_gen:
-                    result = r.v
             if is_gen:
-                result = _Iter(env["__yield__"])     # evaluated eagerly: finite inputs only
+                # the body runs only as far as the consumer pulls (a consumer that stops early leaves the rest unexecuted)
+                def body(sink, env=env, fi=fi):
+                    env["__yield__"] = sink
+                    try:
+                        self.block(fi.node.body, env, fi)
+                    except _Ret:
+                        pass
+                g, close = thread_generator(body)
+                result = LazyIter(g, close)
+            else:
+                try:
+                    self.block(fi.node.body, env, fi)
+                except _Ret as r:
+                    result = r.v
             if memo_key is not None:
                 self._memo[memo_key] = result
             return result
@@ -341,16 +377,23 @@ class MiniInterp:
             src = self.ev(st.iter, env, fi)
             it = src.lazy() if isinstance(src, LazyIter) else self.iterate(src)
             broke = False
-            for x in it:
-                self.tick()
-                self.assign(st.target, x, env, fi)
-                try:
-                    self.block(st.body, env, fi)
-                except _Brk:
-                    broke = True
-                    break
-                except _Cont:
-                    continue
+            try:
+                for x in it:
+                    self.tick()
+                    self.assign(st.target, x, env, fi)
+                    try:
+                        self.block(st.body, env, fi)
+                    except _Brk:
+                        broke = True
+                        break
+                    except _Cont:
+                        continue
+            except BaseException:
+                if isinstance(src, LazyIter):
+                    src.close()
+                raise
+            if broke and isinstance(src, LazyIter):
+                src.close()
             if not broke:
                 self.block(st.orelse, env, fi)
             return
@@ -581,7 +624,7 @@ class MiniInterp:
                 self.assign(e, x, env, fi)
         elif isinstance(t, ast.Attribute):
             obj = self.ev(t.value, env, fi)
-            if isinstance(obj, Sym):
+            if isinstance(obj, (Sym, SymDict)):
                 obj.fields[t.attr] = v
             elif isinstance(obj, tuple) and obj and obj[0] == "class":
                 owner = next((c for c in obj[1].mro() if t.attr in c.class_attrs), obj[1])
@@ -952,6 +995,8 @@ class MiniInterp:
                 try:
                     return obj[self.key(k) if isinstance(obj, dict) else k]
                 except (KeyError, IndexError, TypeError) as e:
+                    if isinstance(e, KeyError) and isinstance(obj, SymDict) and obj.cls.find_method("__missing__") is not None:
+                        return self.call(self.prj.func(obj.cls.find_method("__missing__").qual, raw=True), [k], {}, obj)
                     if isinstance(e, KeyError) and isinstance(obj, DefaultDict):
                         if obj.counter:
                             return 0
@@ -1031,7 +1076,12 @@ class MiniInterp:
         if isinstance(n, ast.YieldFrom):
             if "__yield__" not in env:
                 raise Unknown("yield outside an interpreted generator")
-            env["__yield__"].extend(self.iterate(self.ev(n.value, env, fi)))
+            src = self.ev(n.value, env, fi)
+            if isinstance(src, LazyIter) and isinstance(env["__yield__"], _YieldSink):
+                for x in src.lazy():
+                    env["__yield__"].append(x)
+            else:
+                env["__yield__"].extend(self.iterate(src))
             return None
         if isinstance(n, ast.Starred):
             raise Unknown("starred expression")
@@ -1098,6 +1148,17 @@ class MiniInterp:
             raise Unknown("comparison")
 
     def getattr(self, obj, attr, fi, node):
+        if isinstance(obj, SymDict):
+            if attr in obj.fields:
+                return obj.fields[attr]
+            m = obj.cls.find_method(attr)
+            if m is not None:
+                if m.is_property():
+                    return self.call(self.prj.func(m.qual, raw=True), [], {}, obj)
+                return BoundFunc(m, T("class", obj.cls) if m.is_classmethod() else obj)
+            if attr in SAFE_METHODS[dict]:
+                return T("native", obj, attr)
+            raise PyRaise("AttributeError", node)
         if isinstance(obj, EnumInt) and obj.cls is not None:
             if attr == "name":
                 return obj.name
@@ -1475,12 +1536,9 @@ class MiniInterp:
                 keys = list(args)
 
                 def item(obj, key):
-                    try:
-                        return obj[key]
-                    except (KeyError, IndexError) as e:
-                        raise PyRaise(type(e).__name__, node)
-                    except TypeError:
-                        raise Unknown("itemgetter on this value")
+                    # the interpreter's own subscript semantics (named tuples, instances with __getitem__, dictionaries ...)
+                    return self.ev(ast.Subscript(value=ast.Name(id="__o", ctx=ast.Load()), slice=ast.Name(id="__k", ctx=ast.Load()), ctx=ast.Load()),
+                                   {"__o": obj, "__k": key}, None)
                 return PyFn("itemgetter", lambda a, k: item(a[0], keys[0]) if len(keys) == 1 else tuple(item(a[0], x) for x in keys))
             if base == "methodcaller" and args and isinstance(args[0], str):
                 mname, margs, mkw = args[0], list(args[1:]), dict(kwargs)
@@ -1763,7 +1821,7 @@ class MiniInterp:
                 return True
             return isinstance(v, ty)
         if isinstance(c, tuple) and c and c[0] == "class":
-            return isinstance(v, Sym) and v.cls is not None and v.cls.is_subclass_of(c[1])
+            return isinstance(v, (Sym, SymDict, EnumInt)) and v.cls is not None and v.cls.is_subclass_of(c[1])
         if isinstance(c, tuple) and c and c[0] == "external":
             if isinstance(v, Sym):
                 return False if v.cls is not None else (_ for _ in ()).throw(Unknown("isinstance of an open term"))
@@ -1816,6 +1874,18 @@ class MiniInterp:
                 if (isinstance(val, Sym) and self.equal(val.fields.get("value"), args[0])) or (not isinstance(val, Sym) and val == args[0]):
                     return val
             raise PyRaise("ValueError", node)
+        ext = ci.external_bases()
+        if "dict" in ext or "OrderedDict" in ext:
+            obj = SymDict(ci)
+            init = ci.find_method("__init__")
+            if init is not None:
+                self.call(self.prj.func(init.qual, raw=True), args, kwargs, obj)
+            elif args or kwargs:
+                src = args[0] if args else {}
+                for k, v in (src.items() if isinstance(src, dict) else [tuple(self.iterate(x)) for x in self.iterate(src)]):
+                    obj[self.key(k)] = v
+                obj.update(kwargs)
+            return obj
         obj = Sym(ci.name + "()", _cls=ci)
         init = ci.find_method("__init__")
         if init is not None:
@@ -1998,10 +2068,27 @@ class MiniInterp:
                         break
                     out.append(v)
                 return _Iter(out)
+            if name == "iter" and len(args) == 1 and isinstance(args[0], (LazyIter, _Iter)):
+                return args[0]
             if name == "iter":
                 return _Iter(self.iterate(args[0]))
+            if name in ("any", "all") and len(args) == 1 and isinstance(args[0], LazyIter):
+                for x in args[0].lazy():
+                    self.tick()
+                    if self.truth(x) == (name == "any"):
+                        args[0].close()
+                        return name == "any"
+                return name == "all"
             if name == "next":
                 it = args[0]
+                if isinstance(it, LazyIter):
+                    END = object()
+                    r = next(it.lazy(), END)
+                    if r is END:
+                        if len(args) > 1:
+                            return args[1]
+                        raise PyRaise("StopIteration", node)
+                    return r
                 if isinstance(it, _Iter):
                     r = it.next()
                     if r is _Iter.END:
@@ -2078,33 +2165,130 @@ class MiniInterp:
                         e2[p] = self.ev(defaults[p], f.env, f.fi)
                     else:
                         raise Unknown(f"missing argument {p}")
-            is_gen = any(isinstance(x, (ast.Yield, ast.YieldFrom)) for st in f.node.body for x in ast.walk(st)
-                         if not isinstance(st, (ast.FunctionDef, ast.ClassDef)))
+            is_gen = _is_generator(f.node)
             if is_gen:
-                e2["__yield__"] = []
+                def body(sink, e2=e2, f=f, sub=sub):
+                    e2["__yield__"] = sink
+                    try:
+                        self.block(f.node.body, e2, sub)
+                    except _Ret:
+                        pass
+                g, close = thread_generator(body)
+                return LazyIter(g, close)
             try:
                 self.block(f.node.body, e2, sub)
             except _Ret as r:
-                if not is_gen:
-                    return r.v
-            return _Iter(e2["__yield__"]) if is_gen else None
+                return r.v
+            return None
         return NotImplemented
 
     def apply(self, f, args):
         return self.apply2(f, args, {})
 
 
-class LazyIter:
-    """an iterator whose next element is computed when asked for (os.walk: the consumer prunes the yielded list)"""
+def _is_generator(fn_node) -> bool:
+    """does the function's own body (not a nested def / lambda / class) contain a yield?"""
+    todo = list(fn_node.body)
+    while todo:
+        n = todo.pop()
+        if isinstance(n, (ast.Yield, ast.YieldFrom)):
+            return True
+        if isinstance(n, (ast.FunctionDef, ast.AsyncFunctionDef, ast.Lambda, ast.ClassDef)):
+            continue
+        todo.extend(ast.iter_child_nodes(n))
+    return False
 
-    def __init__(self, gen):
+
+class LazyIter:
+    """an iterator whose next element is computed when asked for (os.walk: the consumer prunes the yielded list; generator
+    functions of the project: the body runs only as far as the consumer pulls)"""
+
+    def __init__(self, gen, close=None):
         self.gen = gen
+        self._close = close
 
     def lazy(self):
         return self.gen
 
     def rest(self):
         return list(self.gen)
+
+    def close(self):
+        if self._close is not None:
+            self._close()
+
+
+class _GenClose(BaseException):
+    pass
+
+
+class _YieldSink:
+    """what `yield` writes to inside a lazily evaluated generator body: hands the value to the consumer and waits"""
+
+    def __init__(self, put):
+        self.put = put
+
+    def append(self, v):
+        self.put(v)
+
+    def extend(self, vs):
+        for v in vs:
+            self.put(v)
+
+
+def thread_generator(body):
+    """-> (python generator, close): `body(sink)` is run on a helper thread, one step per next() of the consumer.  Exactly one
+    of the two threads runs at any time (hand-over by semaphores), so the interpreter's state is never used concurrently."""
+    import threading
+    state = {"value": None, "done": False, "exc": None, "closed": False, "started": False}
+    to_gen, to_consumer = threading.Semaphore(0), threading.Semaphore(0)
+
+    def put(v):
+        state["value"] = v
+        to_consumer.release()
+        to_gen.acquire()
+        if state["closed"]:
+            raise _GenClose()
+
+    def target():
+        to_gen.acquire()
+        try:
+            if not state["closed"]:
+                body(_YieldSink(put))
+        except _GenClose:
+            pass
+        except BaseException as e:      # handed to the consumer
+            state["exc"] = e
+        state["done"] = True
+        to_consumer.release()
+
+    th = threading.Thread(target=target, daemon=True)
+
+    def close():
+        if state["done"] or state["closed"]:
+            return
+        state["closed"] = True
+        if not state["started"]:
+            state["started"] = True
+            th.start()
+        to_gen.release()
+        to_consumer.acquire()
+
+    def gen():
+        while True:
+            if state["done"] or state["closed"]:
+                return
+            if not state["started"]:
+                state["started"] = True
+                th.start()
+            to_gen.release()
+            to_consumer.acquire()
+            if state["done"]:
+                if state["exc"] is not None:
+                    raise state["exc"]
+                return
+            yield state["value"]
+    return gen(), close
 
 
 class _Iter:
